@@ -273,6 +273,20 @@ def table : List Row := [
   ⟨.sigCache, "consensus.SignBlock", true, true, .engine, "DPoVP.MineBlock"⟩
 ]
 
+/-- the guard of each variable: a lock held at EVERY access from a real entry point ("atomic": only
+    atomic.Value Load/Store; "none": no such lock) -/
+def guards : List (Var × String) := [
+  (.sigCache, "none"),
+  (.lastSig, "none"),
+  (.head, "atomic"),
+  (.unConfirmBlocks, "none"),
+  (.lastConfirm, "none"),
+  (.offset, "none"),
+  (.index, "FileQueue.IndexRW"),
+  (.termList, "Manager.lock"),
+  (.evilDeputies, "Manager.edLock")
+]
+
 /-- every listed access of `v` from a real entry point holds `v`'s lock
     (rows with entry "-" are constructor / start-up code that runs before the object is shared) -/
 def disciplined (t : List Row) (v : Var) : Bool :=
